@@ -97,7 +97,7 @@ package h2
 //@      (forall k uint32 :: has(r.outputBuffers, k) ==> 0 - b <= r.outputBuffers[k].windowSize && r.outputBuffers[k].windowSize <= b)
 
 //@ func (*relay).outputBuffer
-//@   serves C09
+//@   serves C09 C08
 //@   requires r != nil && bufsOK(r)
 //@   modifies r.outputBuffers[*]
 //@   ensures result != nil && has(r.outputBuffers, streamID) && r.outputBuffers[streamID] == result
@@ -517,6 +517,33 @@ package h2
 //@   modifies wrN, wrKindAt, wrStreamAt, wrAuxAt
 //@   ensures wrN == old(wrN) + 1 && wrKindAt == upd(old(wrKindAt), old(wrN), 3) && wrStreamAt == upd(old(wrStreamAt), old(wrN), streamID) && wrAuxAt == upd(old(wrAuxAt), old(wrN), code)
 
+// every queued frame is queued under the stream it is SENT on (a PUSH_PROMISE under its parent stream, not under the
+// promised one): frames of one stream keep their order because they share a queue
+//@ func (*queuedDataFrame).StreamID
+//@   serves C08
+//@   requires f != nil
+//@   modifies nothing
+//@   ensures[queued-under-its-own-stream] result == f.streamID
+//@ func (*queuedHeaderFrame).StreamID
+//@   serves C08
+//@   requires f != nil
+//@   modifies nothing
+//@   ensures[queued-under-its-own-stream] result == f.streamID
+//@ func (*queuedPushPromiseFrame).StreamID
+//@   serves C08
+//@   requires f != nil
+//@   modifies nothing
+//@   ensures[queued-under-its-own-stream] result == f.streamID
+//@ func (*queuedPriorityFrame).StreamID
+//@   serves C08
+//@   requires f != nil
+//@   modifies nothing
+//@   ensures[queued-under-its-own-stream] result == f.streamID
+//@ func (*queuedRSTStreamFrame).StreamID
+//@   serves C08
+//@   requires f != nil
+//@   modifies nothing
+//@   ensures[queued-under-its-own-stream] result == f.streamID
 //@ func (*queuedDataFrame).send
 //@   serves C08
 //@   requires f != nil && dest != nil
@@ -645,6 +672,7 @@ package h2
 //@   ensures result != nil && fresh(result)
 //@   ensures[initial-windows] result.connectionWindowSize == 65535 && result.initialWindowSize == 65535 && result.maxFrameSize == 16384
 //@   ensures result.outputBuffers != nil && len(result.outputBuffers) == 0 && result.src == src && result.dest == dest && result.dir == dir
+//@   ensures[output-queue-is-buffered-so-the-peer-can-release-frames-without-a-rendezvous; C10] cap(result.output) == outputChannelSize
 //@   ensures[table-size-limits-lifted; C08] result.decoder != nil && result.encoder != nil && result.decoder.gAllowedMax == 4294967295 && result.encoder.gLimit == 4294967295
 
 //@ func (*Config).Proxy
@@ -693,6 +721,15 @@ package h2
 //@   at select 0 after set wSel = sel
 //@   at return all before assert[writer-drains-the-output-until-the-reader-is-done] wSel == 1
 //@   ensures[write-error-reported-at-most-once] nWErr <= old(nWErr) + 1
+// the deferred hand-shake with the writer goroutine is an unconditional send: relayFrames returns only after the
+// writer has taken the signal (and so is not inside a write any more and will exit)
+//@ ghost var nDoneSig int
+//@ func (*relay).relayFrames$1
+//@   serves C10
+//@   modifies nDoneSig
+//@   noframe
+//@   at send 0 after set nDoneSig = nDoneSig + 1
+//@   ensures[reader-done-signal-is-delivered-not-dropped] nDoneSig == old(nDoneSig) + 1
 //@ func (*relay).relayFrames
 //@   serves C10
 //@   requires r != nil && r.peer != nil && relayReady(r) && relayReady(r.peer) && contInv(r) && r.enableDebugLogs != nil && r.src != nil
